@@ -2648,8 +2648,9 @@ class RockRidge:
             # directory record's own entries already told us.
             pass
         else:
-            # Not 1.12, so either 1.09 or 1.10.
-            if sf_record_length == 12:
+            # Not 1.12, so either 1.09 or 1.10.  Version 1.10 never has an RR
+            # record; without one, later entries should not get one either.
+            if sf_record_length == 12 or (self.dr_entries.rr_record is None and self.ce_entries.rr_record is None):
                 self.rr_version = '1.10'
             else:
                 self.rr_version = '1.09'
